@@ -5,7 +5,7 @@ import itertools
 import math
 import multiprocessing as mp
 
-from harness import common
+from harness import common, gen_targets
 from harness.common import Check, coq_Z, coq_bool
 
 META = {
@@ -76,6 +76,7 @@ Import ListNotations. Open Scope Z_scope.
 def run(ck: Check) -> None:
     common.assert_repo_imports()
     ck.coq_props()
+    gen_targets.run(ck)          # translator tie: Gallina regenerated from the source + coq/gen/EquivC15.v
     thorough = ck.tier == "thorough"
     maxn = 36 if thorough else 20
     shapes = shapes_upto(maxn, 4) + [sh for sh in itertools.product((1, 2), repeat=5)]
@@ -188,6 +189,7 @@ def run(ck: Check) -> None:
         "disagreements": len(bad),
     })
     ck.assumptions += ["torch.narrow/view/storage_offset behave as observed (views identified by storage pointer + offset + contiguity)"]
+    ck.gen_equiv_verdict()
 
 
 def replay(obj) -> bool:
